@@ -5,6 +5,7 @@ package controllers
 
 import (
 	"k8s.io/client-go/tools/cache"
+	"k8s.io/client-go/util/workqueue"
 
 	proxylisters "github.com/kubewharf/kubegateway/pkg/client/listers/proxy/v1alpha1"
 	"github.com/kubewharf/kubegateway/pkg/clusters"
@@ -40,3 +41,8 @@ func (m *UpstreamClusterController) VerifC11Instrument(wrapLister func(proxylist
 
 // VerifC11QueueLen is the number of items waiting in the controller's work queue.
 func (m *UpstreamClusterController) VerifC11QueueLen() int { return m.queue.Queue().Len() }
+
+// VerifC11WrapQueue wraps the work queue under the controller's SyncQueue (before Run).
+func (m *UpstreamClusterController) VerifC11WrapQueue(wrap func(workqueue.RateLimitingInterface) workqueue.RateLimitingInterface) {
+	m.queue.VerifC11WrapQueue(wrap)
+}
